@@ -929,6 +929,11 @@ func ParseSpecFile(path, pkg string, isGo, trusted bool) (*SpecFile, error) {
 			v := f[0]
 			var req, ens, mods []string
 			if kw == "decoder" {
+				// C07 default: a decoder allocates nothing whose size comes from the input, unless the
+				// contract names a limit (opt alloclimit N)
+				if _, set := cur.Opts["alloclimit"]; !set {
+					cur.Opts["alloclimit"] = "0"
+				}
 				req = []string{v + " != nil", "0 <= " + v + ".pos && " + v + ".pos <= " + v + ".len"}
 				mods = []string{v + ".pos", v + ".reads", v + ".short"}
 				ens = []string{
